@@ -199,7 +199,10 @@ fn hash_str(s: &str) -> String {
 /// Run the worker stripes of `prop` as subprocesses and aggregate.
 /// Returns (ctx, machinery_errors).
 pub fn run_workers(prop: &str, tier: &str, n: usize, extra_env: &[(&str, String)]) -> (Ctx, Vec<String>) {
-  let exe = std::env::current_exe().unwrap();
+  run_workers_with(prop, tier, n, extra_env, std::env::current_exe().unwrap())
+}
+
+pub fn run_workers_with(prop: &str, tier: &str, n: usize, extra_env: &[(&str, String)], exe: std::path::PathBuf) -> (Ctx, Vec<String>) {
   let mut total = Ctx::default();
   let mut errors = Vec::new();
   let max_par: usize = std::env::var("VERIF_JOBS").ok().and_then(|s| s.parse().ok()).unwrap_or(16);
@@ -289,7 +292,7 @@ pub fn run_workers(prop: &str, tier: &str, n: usize, extra_env: &[(&str, String)
           None => "hang (wall limit exceeded)".to_string(),
           Some(s) => format!("died: {s}"),
         };
-        let located = crash_case.or_else(|| locate_by_trace(prop, tier, k, n, extra_env));
+        let located = crash_case.or_else(|| locate_by_trace(&exe, prop, tier, k, n, extra_env));
         match located {
           Some(case) => {
             let case_v: Value = serde_json::from_str(&case).unwrap_or(Value::String(case.clone()));
@@ -313,8 +316,7 @@ pub fn run_workers(prop: &str, tier: &str, n: usize, extra_env: &[(&str, String)
   (total, errors)
 }
 
-fn locate_by_trace(prop: &str, tier: &str, k: usize, n: usize, extra_env: &[(&str, String)]) -> Option<String> {
-  let exe = std::env::current_exe().ok()?;
+fn locate_by_trace(exe: &std::path::Path, prop: &str, tier: &str, k: usize, n: usize, extra_env: &[(&str, String)]) -> Option<String> {
   let mut cmd = Command::new(exe);
   cmd.args(["worker", prop, tier, &k.to_string(), &n.to_string(), "--trace"]).stdout(Stdio::null()).stderr(Stdio::piped());
   for (a, b) in extra_env {
